@@ -1,6 +1,6 @@
-(* Property C01 (partial).  Only statements closed by `exact`, each followed by Print Assumptions. *)
+(* Property C01.  Only statements closed by `exact`/one-line glue, each followed by Print Assumptions. *)
 From Coq Require Import ZArith List Bool.
-From C01 Require Import Lang Eval Check Sem Witness Statement Proofs1 Proofs2 Proofs3.
+From C01 Require Import Lang Eval Check Sem Witness Statement Proofs1 Proofs2 Proofs3 Proofs4 Proofs5.
 Import ListNotations.
 Local Open Scope nat_scope.
 
@@ -31,8 +31,8 @@ Theorem narrow_truthy_sound : forall P, sub_trans P -> forall t v, mem P v t ->
 Proof. exact Proofs1.narrow_truthy_sound. Qed.
 Print Assumptions narrow_truthy_sound.
 
-(* isinstance narrowing, both branches -- for the certifying mode (sm = true), which refuses to drop a
-   union item that shares a subclass with the tested class ... *)
+(* isinstance narrowing, both branches, for the certifying mode (refuses to drop a union item that shares
+   a subclass with the tested class) ... *)
 Theorem narrow_isinstance_sound_partial : forall P, sub_trans P -> forall t k yes no v,
   narrow_isinst P true t k = Ok (yes, no) -> mem P v t ->
   (isinst P v k = true -> mem P v yes) /\ (isinst P v k = false -> mem P v no).
@@ -44,16 +44,40 @@ Theorem narrow_isinstance_refuted : ~ narrow_isinstance_sound_unrestricted.
 Proof. exact Proofs3.narrow_isinst_refuted. Qed.
 Print Assumptions narrow_isinstance_refuted.
 
-(* ---- stage 2 (partial: call-free expressions; Statement.expr_sound is the full form) *)
-Theorem expr_sound_partial : forall P, class_table_ok P ->
-  forall fuel e d fr t m en, call_free e = true -> infer P true d fr e = Ok (t, m) ->
-    env_decl_ok P en d -> env_frame_ok P en fr -> expr_result_ok P en t m (eval P fuel en e).
-Proof. exact Proofs2.expr_sound_cf. Qed.
-Print Assumptions expr_sound_partial.
+(* ---- what the certifying checker establishes about the class table and the bodies *)
+Theorem certified_establishes_prog_ok : forall P, check_prog_certified P = true -> prog_ok P.
+Proof. exact Proofs5.certified_prog_ok. Qed.
+Print Assumptions certified_establishes_prog_ok.
 
-(* ---- stage 3: the full statement is REFUTED by the faithful model; both witnesses are replayed on real
-   mypy + CPython by the harness (known findings accept_loop-iteration-cap and
-   isinstance-union-item-dropped-despite-common-subclass) *)
+(* ---- stage 2: every expression (calls, method calls and construction included) *)
+Theorem expr_sound : Statement.expr_sound.
+Proof. intros P H fuel. exact (Proofs4.expr_sound_holds P (Proofs5.certified_prog_ok P H) fuel). Qed.
+Print Assumptions expr_sound.
+
+(* ---- stage 3: the binder-environment invariant through every statement form *)
+Theorem stmt_invariant : Statement.stmt_invariant.
+Proof. intros P H fuel. exact (Proofs4.stmt_invariant_holds P (Proofs5.certified_prog_ok P H) fuel). Qed.
+Print Assumptions stmt_invariant.
+
+(* a statement after which the checker holds control unreachable never completes normally:
+   code the checker skipped as unreachable is never executed *)
+Theorem unreachable_never_reached : forall P, check_prog_certified P = true ->
+  forall s ret st st' en fuel en', check_stmt P true ret st s = Ok st' -> cur st' = None -> env_ok P en st ->
+    exec P fuel en s <> Val (Normal en').
+Proof.
+  intros P H s ret st st' en fuel en' Hc Hn He Hx.
+  pose proof (Proofs4.stmt_invariant_holds P (Proofs5.certified_prog_ok P H) fuel s ret st st' en Hc He) as R.
+  rewrite Hx in R. simpl in R. destruct R as [_ R]. rewrite Hn in R. exact R.
+Qed.
+Print Assumptions unreachable_never_reached.
+
+Theorem certified_programs_do_not_go_wrong : Statement.certified_programs_do_not_go_wrong.
+Proof. intros P H g fd vs fuel. exact (Proofs4.call_sound P (Proofs5.certified_prog_ok P H) g fd vs fuel). Qed.
+Print Assumptions certified_programs_do_not_go_wrong.
+
+(* ---- mypy's own verdict: the full statement is REFUTED by the faithful model; both witnesses are replayed
+   on real mypy + CPython by the harness (known findings accept_loop-iteration-cap and
+   isinstance-union-item-dropped-despite-common-subclass); neither witness is certified *)
 Theorem accepted_programs_do_not_go_wrong_refuted : ~ accepted_programs_do_not_go_wrong.
 Proof. exact Proofs3.statement_refuted. Qed.
 Print Assumptions accepted_programs_do_not_go_wrong_refuted.
@@ -69,16 +93,18 @@ Proof. exact Proofs3.mi_refutes. Qed.
 Print Assumptions refuted_by_isinstance_on_union.
 
 (* ---- non-vacuity *)
-Example class_table_ok_example : class_table_ok narrow_join_prog.
-Proof. apply Proofs3.no_classes_ok. reflexivity. Qed.
+Example certified_example : check_prog_certified narrow_join_prog = true.
+Proof. vm_compute. reflexivity. Qed.
+Example certified_run_example : call_fun narrow_join_prog 400 1 [VNone] = Val (VInt 4%Z).
+Proof. vm_compute. reflexivity. Qed.
+Example certified_loop_class_example :
+  check_prog_certified loop_class_prog = true /\ call_fun loop_class_prog 400 1 [VNone] = Val (VInt 1%Z).
+Proof. split; vm_compute; reflexivity. Qed.
 Example sub_trans_example : sub_trans mi_prog.
 Proof. exact Proofs3.mi_sub_trans. Qed.
 Example expr_example :
-  infer narrow_join_prog true [(1, TUnion [TInt; TNone])] [] (EOr (EVar 1) (EInt 3%Z)) = Ok (TInt, (Some [], None))
-  /\ call_free (EOr (EVar 1) (EInt 3%Z)) = true.
-Proof. split; vm_compute; reflexivity. Qed.
+  infer narrow_join_prog true [(1, TUnion [TInt; TNone])] [] (EOr (EVar 1) (EInt 3%Z)) = Ok (TInt, (Some [], None)).
+Proof. vm_compute. reflexivity. Qed.
 Example narrow_example :
   narrow_isinst mi_prog true (TUnion [TInst 2; TNone]) (CUser 3) = Ok (TInst 3, TUnion [TInst 2; TNone]).
-Proof. vm_compute. reflexivity. Qed.
-Example certified_example : check_prog_certified narrow_join_prog = true.
 Proof. vm_compute. reflexivity. Qed.
